@@ -125,6 +125,14 @@ def record_scale_trace(spec):
         x = np.sin(0.37 * t + 1.0) + 0.1 * rng.standard_normal(N)
         y = 0.7 * np.sin(0.37 * t + 0.2) + 0.1 * rng.standard_normal(N)
     starts = rng.integers(0, N - L + 1, size=K).astype(np.int64)      # unsorted, repeats allowed
+    if spec.get("starts") == "near_regular" and K >= 4 and N - L >= K:
+        # evenly spaced first/second/last entries, jittered interior: shortcuts that only look at the ends must not fire
+        d = (N - L) // (K - 1)
+        starts = (np.arange(K) * d).astype(np.int64)
+        if d >= 2:
+            j = rng.integers(2, K - 1, size=max(1, K // 4))
+            starts[j] += rng.integers(-(d // 2), d // 2 + 1, size=j.size)
+            starts = np.clip(starts, 0, N - L)
     wname = spec["win"]
     if wname == "kaiser":
         w = np.kaiser(L + 1, 10.0)[:-1]
@@ -185,7 +193,7 @@ def scale_specs(tier, seed):
         specs.append(dict(seed=rnd.randrange(2 ** 31), N=N, L=L, K=K, order=rnd.choice([-1, 0, 1, 2]),
                           mode=rnd.choice(["auto", "csd"]), data=rnd.choice(["white", "trend", "sine", "line"]),
                           win=rnd.choice(wins if L >= 8 else ["rect", "hann", "kaiser"]), omega=om,
-                          cuda=(i % (8 if tier == "quick" else 6) == 0)))
+                          cuda=(i % (8 if tier == "quick" else 6) == 0), starts=("near_regular" if i % 3 == 1 else "random")))
     return specs
 
 
